@@ -66,6 +66,33 @@ def active_phases(st):
     return ph
 
 
+def voluntary_show(ops, k, n):
+    """Is ops[k] (a HoleCardsShowingOrMucking record) a show outside the showdown phase - the documented non-standard showdown a
+    still-active player may perform when no street is on?  From the log alone: the hand was already down to one live player
+    (no showdown takes place), or hand killing / chips pushing / pulling had begun."""
+    n_out = 0
+    late = False
+    for o in ops[:k]:
+        nm = type(o).__name__
+        if nm in ('Folding', 'HandKilling') or (nm == 'HoleCardsShowingOrMucking' and not o.hole_cards):
+            n_out += 1
+        ph = PHASE_OF_OP.get(nm)
+        if ph in ('K', 'P', 'L'):
+            late = True
+        elif ph in ('D', 'B'):
+            late = False
+    return late or (n - n_out) <= 1
+
+
+def last_phase(ops, n):
+    for k in range(len(ops) - 1, -1, -1):
+        nm = type(ops[k]).__name__
+        if nm == 'HoleCardsShowingOrMucking' and voluntary_show(ops, k, n):
+            continue
+        return PHASE_OF_OP.get(nm)
+    return None
+
+
 class PhaseMonitor:
     name = 'phases'
 
@@ -83,9 +110,7 @@ class PhaseMonitor:
 
     def before_apply(self, c, ev, ctx):
         self._obj = c
-        ops = c.operations
-        last = PHASE_OF_OP.get(type(ops[-1]).__name__) if ops else None
-        self._last = (last, any(c.bets))
+        self._last = (last_phase(c.operations, c.player_count), any(c.bets))
 
     def on_update(self, st, op, ctx):
         if op is None:
@@ -96,6 +121,9 @@ class PhaseMonitor:
         name = type(op).__name__
         ph = PHASE_OF_OP.get(name)
         if ph is None:
+            return
+        if name == 'HoleCardsShowingOrMucking' and voluntary_show(st.operations, len(st.operations) - 1, st.player_count):
+            ctx.counters['voluntary_shows_outside_the_showdown'] += 1
             return
         if st is not self._obj:      # construction cascade: object first seen now
             self._obj = st
@@ -126,7 +154,7 @@ class PhaseMonitor:
                               sig=(self.prop, 'one-phase', ''.join(ph) or 'none'))
             else:
                 ctx.counters['phase_' + ph[0]] += 1
-                last = PHASE_OF_OP.get(type(st.operations[-1]).__name__) if st.operations else None
+                last = last_phase(st.operations, st.player_count)
                 if not allowed(last, ph[0], st) and not (last == 'C' and ph[0] == 'C'):
                     ctx.violation('phase-order-state', f'after {PHASE_NAMES.get(last, "begin")} the active phase is {PHASE_NAMES[ph[0]]}',
                                   sig=(self.prop, 'phase-order-state', str(last), ph[0]))
@@ -134,7 +162,7 @@ class PhaseMonitor:
             if ph:
                 ctx.violation('over-but-active', f'status=False but {ph} still has available operations',
                               sig=(self.prop, 'over-but-active', ''.join(ph)))
-            last = PHASE_OF_OP.get(type(st.operations[-1]).__name__) if st.operations else None
+            last = last_phase(st.operations, st.player_count)
             if last not in ('P', 'L'):
                 shape = 'nobody-live' if not any(st.statuses) else str(last)
                 ctx.violation('ended-early', f'hand over after {PHASE_NAMES.get(last)} without pushing the pot '
